@@ -164,9 +164,137 @@ func sortStrings(s []string) {
 	}
 }
 
+// termSymbols collects the free constant and function symbols of t.
+func termSymbols(t *Term, out map[string]bool) {
+	seen := map[int]bool{}
+	var rec func(t *Term)
+	rec = func(t *Term) {
+		if seen[t.id] {
+			return
+		}
+		seen[t.id] = true
+		if t.kind == 0 {
+			if len(t.args) == 0 {
+				if _, ok := symDecls[t.op]; ok && !strings.HasPrefix(t.op, "ctr") {
+					out[t.op] = true
+				}
+			} else if _, ok := funDecls[t.op]; ok {
+				out[t.op] = true
+			}
+		}
+		for _, a := range t.args {
+			rec(a)
+		}
+	}
+	rec(t)
+}
+
+// relevantFacts: quantified facts are kept only when they are connected to the
+// goal through shared symbols (two rounds); ground facts are always kept. This
+// only weakens the hypotheses, so a proof of the filtered script is a proof.
+func relevantFacts(facts []*Term, goal *Term) []*Term {
+	rel := map[string]bool{}
+	termSymbols(goal, rel)
+	// symbols of the definitional axioms of goal symbols count too
+	for n := range rel {
+		for _, ax := range axiomsFor[n] {
+			termSymbols(ax, rel)
+		}
+	}
+	type fi struct {
+		t    *Term
+		syms map[string]bool
+		q      bool
+		in     bool
+		ground bool
+	}
+	var fs []*fi
+	for _, f := range facts {
+		x := &fi{t: f, syms: map[string]bool{}, q: hasQuantifier(f)}
+		termSymbols(f, x.syms)
+		if !x.q {
+			// ground facts are kept unless they speak about a ghost/opaque notion
+			// unrelated to the goal (their definitions would be pulled in)
+			x.in = true
+			nt, nr := 0, 0
+			for s := range x.syms {
+				if isTopicSymbol(s) {
+					nt++
+					if rel[s] {
+						nr++
+					}
+				}
+			}
+			if nt > 0 && nr == 0 {
+				x.in = false
+				x.ground = true
+			}
+		}
+		fs = append(fs, x)
+	}
+	thresholds := []float64{0.6, 0.45, 0.35}
+	for _, th := range thresholds {
+		add := map[string]bool{}
+		for _, x := range fs {
+			if x.in || len(x.syms) == 0 {
+				continue
+			}
+			n, nt, nr := 0, 0, 0
+			for s := range x.syms {
+				if rel[s] {
+					n++
+				}
+				if isTopicSymbol(s) {
+					nt++
+					if rel[s] {
+						nr++
+					}
+				}
+			}
+			// a fact whose ghost/opaque notions are all foreign to the goal is off-topic
+			topical := nt == 0 || nr > 0
+			if topical && (x.ground || float64(n)/float64(len(x.syms)) >= th) {
+				x.in = true
+				for s := range x.syms {
+					add[s] = true
+				}
+			}
+		}
+		for s := range add {
+			rel[s] = true
+			for _, ax := range axiomsFor[s] {
+				termSymbols(ax, rel)
+			}
+		}
+	}
+	var out []*Term
+	for _, x := range fs {
+		if x.in {
+			out = append(out, x.t)
+		}
+	}
+	return out
+}
+
+func isTopicSymbol(s string) bool {
+	return strings.HasPrefix(s, "ghost.") || strings.HasPrefix(s, "op$")
+}
+
+// scriptFiltered renders the obligation with relevance-filtered hypotheses.
+func (o *Obligation) scriptFiltered(global []*Term) string {
+	facts := append([]*Term(nil), global...)
+	facts = append(facts, o.Facts...)
+	facts = relevantFacts(facts, o.Goal)
+	return o.render(facts)
+}
+
 func (o *Obligation) script(global []*Term) string {
 	facts := append([]*Term(nil), global...)
 	facts = append(facts, o.Facts...)
+	return o.render(facts)
+}
+
+func (o *Obligation) render(facts []*Term) string {
 	roots := append([]*Term(nil), facts...)
 	roots = append(roots, o.Goal)
 	roots = append(roots, o.Axioms...)
@@ -215,9 +343,16 @@ func (d *Discharger) dischargeAll(obls []*Obligation, global []*Term) {
 		o := o
 		mu.Lock()
 		script := o.script(global)
-		mu.Unlock()
 		fname := filepath.Join(d.WorkDir, sanitizeFile(o.Name)+".smt2")
 		os.WriteFile(fname, []byte(script), 0o644)
+		o.File = fname
+		if !o.Canary {
+			if sf := o.scriptFiltered(global); len(sf) < len(script)*9/10 {
+				o.FileF = filepath.Join(d.WorkDir, sanitizeFile(o.Name)+".f.smt2")
+				os.WriteFile(o.FileF, []byte(sf), 0o644)
+			}
+		}
+		mu.Unlock()
 		wg.Add(1)
 		sem <- struct{}{}
 		go func() {
@@ -230,28 +365,48 @@ func (d *Discharger) dischargeAll(obls []*Obligation, global []*Term) {
 }
 
 func (d *Discharger) solveFile(o *Obligation, fname string) {
+	type job struct {
+		cfg      SolverCfg
+		file     string
+		filtered bool
+	}
 	try := func(timeout int, seed int) bool {
 		cfgs := solverConfigs(timeout, seed)
+		var jobs []job
 		if o.Canary {
-			cfgs = cfgs[:1]
+			jobs = []job{{cfgs[0], fname, false}}
+		} else {
+			for _, c := range cfgs {
+				jobs = append(jobs, job{c, fname, false})
+			}
+			if o.FileF != "" {
+				for _, c := range cfgs[:2] {
+					jobs = append(jobs, job{c, o.FileF, true})
+				}
+			}
 		}
 		ctx, cancel := context.WithTimeout(context.Background(), time.Duration(timeout+5)*time.Second)
 		defer cancel()
 		type res struct {
 			name, first, out string
 			dt               float64
+			filtered         bool
 		}
-		ch := make(chan res, len(cfgs))
+		ch := make(chan res, len(jobs))
 		start := time.Now()
-		for _, c := range cfgs {
-			c := c
+		for _, j := range jobs {
+			j := j
 			go func() {
-				f, out := d.runOne(ctx, c, fname)
-				ch <- res{c.Name, f, out, time.Since(start).Seconds()}
+				f, out := d.runOne(ctx, j.cfg, j.file)
+				nm := j.cfg.Name
+				if j.filtered {
+					nm += "+filter"
+				}
+				ch <- res{nm, f, out, time.Since(start).Seconds(), j.filtered}
 			}()
 		}
 		var outputs []string
-		for range cfgs {
+		for range jobs {
 			r := <-ch
 			outputs = append(outputs, fmt.Sprintf("%s: %s", r.name, r.first))
 			if r.first == "unsat" {
@@ -259,7 +414,7 @@ func (d *Discharger) solveFile(o *Obligation, fname string) {
 				cancel()
 				return true
 			}
-			if r.first == "sat" {
+			if r.first == "sat" && !r.filtered {
 				o.Status, o.Solver, o.Time = "refuted", r.name, r.dt
 				o.Output = r.out
 				cancel()
